@@ -141,4 +141,90 @@ def bitsEquiv (lhs rhs : Expr) : Bool :=
   | some a, some b => a == b && (opq rhs).all fun t => (opq lhs).elem t
   | _, _ => false
 
+/-! ### equalities, bit by bit
+
+`a == b` on bit-vectors is the conjunction of the per-bit equalities.  A pair of literal bits is trivially true or
+refutes the whole equality; a pair of equal named bits is trivially true, of complementary named bits refutes it; what
+remains are atoms `t[i] = rhs`.  Two (dis)equalities with the same set of atoms (and the same polarity) have the same
+value: this decides the comparison simplifiers that strip masks, zero extensions and literal bit mismatches
+(`(x & 1) == 1 ⇒ x[0:0] == 1`, `ZeroExt(2, x) != c ⇒ x != c'`, `Concat(0, x) == c ⇒ false` …). -/
+structure EqAtom where
+  t : Expr
+  i : Nat
+  rhs : Bit
+
+instance : BEq EqAtom := ⟨fun a b => a.t == b.t && a.i == b.i && a.rhs == b.rhs⟩
+
+inductive PairNF where
+  | triv
+  | absurd
+  | atom (a : EqAtom)
+
+def normPair : Bit → Bit → PairNF
+  | .c a, .c b => if a == b then .triv else .absurd
+  | .of t i ng, .c b => .atom ⟨t, i, .c (b ^^ ng)⟩
+  | .c b, .of t i ng => .atom ⟨t, i, .c (b ^^ ng)⟩
+  | .of t i ng, .of u j ng' =>
+    if t == u && i == j then (if ng == ng' then .triv else .absurd) else .atom ⟨t, i, .of u j (ng ^^ ng')⟩
+
+def zipPairs : List Bit → List Bit → Option (List PairNF)
+  | [], [] => some []
+  | a :: as, b :: bs => (zipPairs as bs).map (normPair a b :: ·)
+  | _, _ => none
+
+def PairNF.isAbsurd : PairNF → Bool
+  | .absurd => true
+  | _ => false
+
+def atomsOf : List PairNF → List EqAtom
+  | [] => []
+  | .atom a :: ps => a :: atomsOf ps
+  | _ :: ps => atomsOf ps
+
+def dedupeAtoms : List EqAtom → List EqAtom
+  | [] => []
+  | a :: l => let r := dedupeAtoms l; if r.elem a then r else a :: r
+
+/-- `neg ⊕ (all atoms hold)`, or a constant -/
+inductive BoolNF where
+  | const (b : Bool)
+  | conj (neg : Bool) (atoms : List EqAtom)
+
+def BoolNF.negate : BoolNF → BoolNF
+  | .const b => .const (!b)
+  | .conj n as => .conj (!n) as
+
+/-- canonical polarity: no atoms is a constant; a negated single literal atom is the atom with the other literal -/
+def BoolNF.canon : BoolNF → BoolNF
+  | .conj n [] => .const (!n)
+  | .conj true [⟨t, i, .c v⟩] => .conj false [⟨t, i, .c (!v)⟩]
+  | x => x
+
+def eqNF (a b : List Bit) : Option BoolNF :=
+  (zipPairs a b).map fun ps => if ps.any PairNF.isAbsurd then .const false else .conj false (dedupeAtoms (atomsOf ps))
+
+/-- normal form and opaque terms of a (dis)equality of bit-vectors, possibly under `Not` -/
+def boolNF : Expr → Option (BoolNF × List Expr)
+  | .boolv b => some (.const b, [])
+  | .app .eq [a, b] =>
+    match bits a, bits b with
+    | some ba, some bb => (eqNF ba bb).map fun nf => (nf, opq a ++ opq b)
+    | _, _ => none
+  | .app .ne [a, b] =>
+    match bits a, bits b with
+    | some ba, some bb => (eqNF ba bb).map fun nf => (nf.negate, opq a ++ opq b)
+    | _, _ => none
+  | _ => none
+
+def BoolNF.same : BoolNF → BoolNF → Bool
+  | .const a, .const b => a == b
+  | .conj n as, .conj m bs => n == m && as.isPerm bs
+  | _, _ => false
+
+/-- is `lhs ⇒ rhs` a rewrite of a bit-vector (dis)equality into one with the same per-bit atoms? -/
+def cmpEquiv (lhs rhs : Expr) : Bool :=
+  match boolNF lhs, boolNF rhs with
+  | some (x, tl), some (y, tr) => x.canon.same y.canon && tr.all fun t => tl.elem t
+  | _, _ => false
+
 end Claripy.AST
